@@ -24,8 +24,12 @@ RULE = ('lib cases: a list of 1..4 inputs, each (points: None / empty Nx3 / empt
         'Nx6} x {no observations, observations} over 1..2 inputs (quick) / 1..3 inputs (thorough). tool cases: 1..4 real '
         'dataset directories (sensors, records_camera, keypoints / descriptors / global features / matches each kept in a '
         'directory or a tar archive per input and per type, points3d.txt, observations.txt), merged by merge_kaptures with '
-        'either driver and a random skip list; the output directory is read back. Non-trivial = at least two inputs with '
-        'points, or a tool case with feature files; distinct = distinct case content.')
+        'either driver and a random skip list; the output directory is read back. remerge cases: the four merge_*_collections '
+        'functions (library API) merge 1..3 inputs (directory and tar sources) into a destination that is NOT empty: an earlier merge of an '
+        'earlier state of the same inputs (files recomputed with the same size / another size / unchanged / absent) and/or stale files '
+        'under destination names (same size, truncated, longer, empty); the whole destination tree before and after is compared. '
+        'Non-trivial = at least two inputs with points, or a tool case with feature files, or a remerge case where a destination file '
+        'must be replaced; distinct = distinct case content.')
 TRUSTED = ['numpy: np.vstack copies float64 rows bit for bit and refuses different column counts; np.frombuffer/reshape/tofile '
            'round-trip the bytes of a tar member that holds whole rows and raise ValueError otherwise (model: transfer)',
            'shutil.copy copies bytes; tarfile returns the bytes of the last member of a given name',
